@@ -182,6 +182,16 @@ pub fn run_check(prop: &Prop, tier: Tier) -> i32 {
         }
     }
 
+    // stale counterexamples of earlier runs of this property must not be mistaken for current ones
+    if let Ok(rd) = std::fs::read_dir(vd.join("replays")) {
+        for e in rd.flatten() {
+            let name = e.file_name().to_string_lossy().to_string();
+            if name.starts_with(&format!("{}-", prop.id)) && name.ends_with(".json") {
+                let _ = std::fs::remove_file(e.path());
+            }
+        }
+    }
+
     // ---- spawn shards
     let n = jobs();
     let exe = std::env::current_exe().expect("current_exe");
@@ -311,7 +321,7 @@ pub fn run_check(prop: &Prop, tier: Tier) -> i32 {
             json!({
                 "domain": u.domain, "chunks": u.chunks, "chunks_run": chunks_run[&u.name],
                 "cases": st.cases, "nontrivial": st.nontrivial,
-                "expected_ok": st.exp_ok, "expected_err": st.exp_err, "left_open": st.exp_any,
+                "expected_ok": st.exp_ok, "expected_err": st.exp_err, "left_open": st.exp_any, "left_open_but_executed_by_impl": st.any_executed,
                 "impl_ok": st.act_ok, "impl_err": st.act_err, "impl_panic": st.act_panic,
                 "distinct_outcomes_lower_bound": st.distinct_outcomes(),
                 "cycles_checked": st.cycles_checked,
